@@ -87,13 +87,16 @@ type lifeSim struct {
 	n, peer *psim.Node
 	ids     []string
 	ls      map[string]*lsn
+	exp     map[string]bool
 	out     []*Step
 	stopped bool
 }
 
-func newLifeSim(connE1, connE2 []string) (*lifeSim, error) {
-	// threshold 0: the periodic rebalancer is not started; Rebalance() is called by the scenario
-	n, err := psim.StartNode(psim.NodeOpts{ID: "a", Rebalance: &config.RebalanceConfig{Threshold: 0, ShedRate: 1, MinConns: 1}})
+func newLifeSim(connE1, connE2, expConn []string) (*lifeSim, error) {
+	// threshold 0: the periodic rebalancer is not started; Rebalance() is called by the scenario.
+	// The upstream port is authenticated: some listeners present a token with an expiry (an hour away).
+	n, err := psim.StartNode(psim.NodeOpts{ID: "a", UpstreamAuth: &auth.Config{HMACSecretKey: "secret"},
+		Rebalance: &config.RebalanceConfig{Threshold: 0, ShedRate: 1, MinConns: 1}})
 	if err != nil {
 		return nil, err
 	}
@@ -102,7 +105,10 @@ func newLifeSim(connE1, connE2 []string) (*lifeSim, error) {
 		n.Stop()
 		return nil, err
 	}
-	s := &lifeSim{n: n, peer: peer, ls: map[string]*lsn{}}
+	s := &lifeSim{n: n, peer: peer, ls: map[string]*lsn{}, exp: map[string]bool{}}
+	for _, c := range expConn {
+		s.exp[c] = true
+	}
 	for _, c := range connE1 {
 		s.ls[c] = &lsn{e: "e1"}
 		s.ids = append(s.ids, c)
@@ -202,7 +208,11 @@ func (s *lifeSim) listen(c string) error {
 	if err != nil {
 		return err
 	}
-	u, err := psim.Listen(context.Background(), rel.Addr(), l.e, c, "", "")
+	var exp time.Time
+	if s.exp[c] {
+		exp = time.Now().Add(time.Hour)
+	}
+	u, err := psim.Listen(context.Background(), rel.Addr(), l.e, c, psim.HMACToken("secret", exp, nil), "")
 	if err != nil {
 		return err
 	}
@@ -372,8 +382,8 @@ func (s *lifeSim) randomCmd(rng *rand.Rand) []interface{} {
 }
 
 // runLife: one scenario (a command list from the model's state graph, or a seeded random one).
-func runLife(connE1, connE2 []string, cmds [][]interface{}, rng *rand.Rand, depth int) ([]*Step, error) {
-	s, err := newLifeSim(connE1, connE2)
+func runLife(connE1, connE2, expConn []string, cmds [][]interface{}, rng *rand.Rand, depth int) ([]*Step, error) {
+	s, err := newLifeSim(connE1, connE2, expConn)
 	if err != nil {
 		return nil, err
 	}
@@ -441,7 +451,7 @@ func runC16(sf *sched, seed int64, emit emitter) error {
 			if jobs[i].rng != nil {
 				depth = 10 + jobs[i].rng.Intn(10)
 			}
-			results[i], errs[i] = runLife(sf.ConnE1, sf.ConnE2, jobs[i].cmds, jobs[i].rng, depth)
+			results[i], errs[i] = runLife(sf.ConnE1, sf.ConnE2, sf.ExpConn, jobs[i].cmds, jobs[i].rng, depth)
 		}(i)
 	}
 	wg.Wait()
